@@ -4,6 +4,7 @@ import SFV.Lemmas.CombNested
 import SFV.Lemmas.CombNestedCart
 import SFV.Lemmas.CombNestedDot
 import SFV.Lemmas.CombNoRaise
+import SFV.Lemmas.CombStep
 /-! # C02 — combinators emit exactly the right combinations, whatever the arrival order
 
 Property theorems only. The statements are about the LOOP-FAITHFUL executable model of
@@ -207,6 +208,10 @@ theorem nested_items_shape (k : Kind) (Pi : Nat) (A B : List Nat) :
     Shape (nestItemsAt k Pi A B) A.length k Pi (A ++ B) :=
   shape_at k Pi A B
 
+/-- the CWL translator never passes a depth: the inner cartesian product it builds has the default depth, which is the
+    depth-1 case this theorem covers (for depth ≥ 2 see `nested_cart_depth2_counterexample`) -/
+example : Gen.cartDefaultDepth = 1 := rfl
+
 /-- non-vacuity: two inner ports with two tokens each, the broadcast token `0` on plain port 2 -/
 example : WFNest 2 2 [2] [(0, ⟨[0, 0], 1⟩), (0, ⟨[0, 1], 2⟩), (1, ⟨[0, 0], 3⟩), (1, ⟨[0, 1], 4⟩), (2, ⟨[0], 5⟩)] := by
   constructor
@@ -272,5 +277,44 @@ theorem nested_dot_order_independent (Pi M : Nat) (plains : List Nat) (items : L
   obtain ⟨_, N, h1, h2⟩ := Comb.nested_dot_any_order hs S es hwf h
   obtain ⟨_, N', h1', h2'⟩ := Comb.nested_dot_any_order hs S es' hwf h'
   exact ⟨N, N', h1, h1', h2.trans h2'.symm⟩
+
+/-- **Negative witness (inner cartesian product of depth 2).** `dot[cart₂[p0, p1], p2]`: the members of an inner
+    schema carry different composite tags (`0.0.2.1` / `0.1.2.1`) and the schema is filed under `get_tag` of them, the
+    first string-longest: two different inner schemas get the tag `0.0.2.1`, only one of them meets the token of
+    `p2`, and which one depends on the arrival order (values 3 resp. 2 on port 1; the composition rule specifies
+    both). Reproduces on the real classes (known finding); the translator only builds depth 1, for which
+    `nested_cart_any_order` holds. -/
+theorem nested_cart_depth2_counterexample :
+    (runNested [Item.sub (.cart 2) [0, 1], Item.port 2]
+      [(0, ⟨[0, 0, 2], 1⟩), (1, ⟨[0, 0, 1], 2⟩), (1, ⟨[0, 1, 1], 3⟩), (2, ⟨[0], 9⟩)]).out.map (fun e => e.map (·.2.val))
+      = [[1, 3, 9]] ∧
+    (runNested [Item.sub (.cart 2) [0, 1], Item.port 2]
+      [(0, ⟨[0, 0, 2], 1⟩), (1, ⟨[0, 1, 1], 3⟩), (1, ⟨[0, 0, 1], 2⟩), (2, ⟨[0], 9⟩)]).out.map (fun e => e.map (·.2.val))
+      = [[1, 2, 9]] := by
+  decide +kernel
+
+/-- **Output ports of a dot-product `CombinatorStep`.** `CombinatorStep.run` feeds every arriving token to `combine`
+    and puts the tokens of every yielded schema on the output port of the same name (`portLog p out`; this step-level
+    model is compared with the real step, ports + persistence + controlled interleaving, on every run). For every
+    arrival order of a well-formed stream the log of output port `p` is, as a multiset, column `p` of the specification. -/
+theorem step_dot_port_logs (P : Nat) (S es : List Ev) (hwf : WFDot P S) (hperm : es.Perm S) (p : Nat) (hp : p < P) :
+    (portLog p (runDot P es).out).Perm (portLog p (specDot P S)) :=
+  Comb.step_dot_port_logs S es hwf hperm p hp
+
+/-- the same for a cartesian-product step -/
+theorem step_cart_port_logs (depth P L : Nat) (S es : List Ev) (hwf : WFCart depth P L S) (hperm : es.Perm S) (p : Nat) :
+    (portLog p (runCart depth P es).out).Perm (portLog p (specCart depth P S)) :=
+  Comb.step_cart_port_logs S es hwf hperm p
+
+/-- **Final status of a dot-product `CombinatorStep`** whose inputs all terminate with `COMPLETED`: `COMPLETED` exactly
+    when the specification is not empty (else `SKIPPED`), for every arrival order of a well-formed stream. -/
+theorem step_dot_status (P : Nat) (hP : 0 < P) (S es : List Ev) (hwf : WFDot P S) (hperm : es.Perm S) :
+    stepStatus (List.range P) (runDot P es).out = .completed ↔ specDot P S ≠ [] :=
+  Comb.step_dot_status hP S es hwf hperm
+
+/-- non-vacuity: the specified log of output port 0 in the broadcast-to-two-children stream, and the step status -/
+example : portLog 0 (specDot 2 [(0, ⟨[0], 1⟩), (1, ⟨[0, 10], 2⟩), (1, ⟨[0, 9], 3⟩)]) = [⟨[0, 10], 1⟩, ⟨[0, 9], 1⟩] := by decide
+example : stepStatus [0, 1] (runDot 2 [(1, ⟨[0, 10], 2⟩), (0, ⟨[0], 1⟩), (1, ⟨[0, 9], 3⟩)]).out = .completed ∧
+    stepStatus [0, 1] (runDot 2 [(1, ⟨[0, 10], 2⟩)]).out = .skipped := by decide +kernel
 
 end SFV.C02
